@@ -153,6 +153,28 @@ func updateConnContext(ctx context.Context, c net.Conn) context.Context {
 	return ctx
 }
 
+// tlsStateHandler marks every request as received over TLS. All client
+// connections of this server are TLS, but net/http only recognises *tls.Conn
+// (not our wrapper), and the HTTP/2 server only sets Request.TLS for the
+// "https" scheme, so fill it in from the connection's metadata when missing.
+type tlsStateHandler struct {
+	next http.Handler
+}
+
+func (h *tlsStateHandler) ServeHTTP(w http.ResponseWriter, r *http.Request) {
+	if r.TLS == nil {
+		if md, ok := metadata.FromContext(r.Context()); ok {
+			cs := md.ConnectionState
+			r.TLS = &cs
+		}
+	}
+	next := h.next
+	if next == nil {
+		next = http.DefaultServeMux
+	}
+	next.ServeHTTP(w, r)
+}
+
 func (server *Server) serveHTTP1() {
 	err := server.HTTPServer.Serve(server.http1ConnChannelListener)
 
@@ -187,6 +209,9 @@ func (server *Server) setupServe() {
 		server.ctx = context.Background()
 	}
 	server.HTTPServer.ConnContext = updateConnContext
+	if _, ok := server.HTTPServer.Handler.(*tlsStateHandler); !ok {
+		server.HTTPServer.Handler = &tlsStateHandler{next: server.HTTPServer.Handler}
+	}
 	server.HTTPServer.BaseContext = func(l net.Listener) context.Context {
 		return server.ctx
 	}
